@@ -677,7 +677,7 @@ impl Prop for C08 {
         let grid_cases = ctx.stats.borrow().evaluations;
         ctx.extra_add("grid_cases", grid_cases);
         // ---- random palette cases
-        let cases = ctx.tier.pick(30_000u32, 600_000u32);
+        let cases = ctx.tier.pick(25_000u32, 400_000u32);
         ctx.run_bytes("rand", cases, 160, |ctx, bytes| {
             let case = gen_case(bytes);
             let fails = check_case(ctx, &mut sut.borrow_mut(), &case);
